@@ -110,6 +110,14 @@ func (s *Sim) Logf(format string, a ...any) {
 	}
 }
 
+// Obs folds an observation of the system's behaviour (a decoded frame, a handler event) into the
+// trace hash, so that the determinism self-test compares behaviour and not only schedules.
+func (s *Sim) Obs(what string) {
+	h := fnv.New64a()
+	h.Write([]byte(what))
+	s.hash = (s.hash ^ h.Sum64()) * 1099511628211
+}
+
 func (s *Sim) TraceHash() uint64        { return s.hash }
 func (s *Sim) InterleavingHash() uint64 { return s.ilHash }
 
